@@ -69,6 +69,7 @@ func newFlatDeep(c *vCtx, metric DistanceKind, nids int) *vFlatSys {
 }
 
 func (s *vFlatSys) Reset() {
+	vResetGlobals()
 	idx, err := NewFlatIndex(s.dim, s.metric)
 	if err != nil {
 		panic(err)
